@@ -44,6 +44,21 @@ def forced_entries(rng, n):
         for r0 in range(0, 40, 4):
             rows.append("gate 0 0 0 0 0 0 - %s" % " ".join(pick(j) for j in range(r0, r0 + 4)))
         return "pub 3;w 5;w 6;" + ";".join(rows)
+    # raw logic rows whose LEFT (or right, or output) quad is out of range by +4 while the other operand quad is 0: only the
+    # range identity of that quad rejects the assignment (a widget that range-checks the wrong wire lets it through)
+    from props.c05 import raw
+    for isx in (False, True):
+        for (qa, qb, which) in ((1, 0, "a"), (3, 0, "a"), (0, 2, "b"), (0, 0, "a"), (2, 0, "d")):
+            a, b, d = rng.fe() % 1000, rng.fe() % 1000, rng.fe() % 1000
+            qd = (qa ^ qb) if isx else (qa & qb)
+            an, bn, dn, cw = 4 * a + qa, 4 * b + qb, 4 * d + qd, qa * qb
+            q = [0] * 11; q[5] = R - 1 if isx else 1; q[8] = R - 1 if isx else 1
+            def prog(an_, bn_, dn_):
+                return ("pub 3;w %s;w %s;w %s;w %s;w %s;w %s;w 0;w %s;%s;%s" % (hx(a), hx(b), hx(cw), hx(d), hx(an_), hx(bn_), hx(dn_),
+                        raw(q, None, ["$1", "$2", "$3", "$4"]), raw([0] * 11, None, ["$5", "$6", "$7", "$8"])))
+            good = prog(an, bn, dn)
+            bad = prog(an + 4, bn, dn) if which == "a" else (prog(an, bn + 4, dn) if which == "b" else prog(an, bn, dn + 4))
+            out.append("forced 706c6f6e6b || %s || %s" % (good, bad))
     for k in [16, 32, 1 + rng.below(39), 1 + rng.below(39)]:
         out.append("forced 706c6f6e6b || %s || %s" % (slots(lambda j: "$1"), slots(lambda j: "$1" if j < k else "$2")))
     return out
